@@ -423,14 +423,42 @@ def consumes_on_all_paths(body: List[ast.stmt], r: str, model: Model = None, fi=
     def expr_consumes(e: ast.AST) -> bool:
         for n in ast.walk(e):
             if isinstance(n, ast.Call):
-                if isinstance(n.func, ast.Attribute) and isinstance(n.func.value, ast.Name) and n.func.value.id == r and \
+                if isinstance(n.func, ast.Attribute) and isinstance(n.func.value, (ast.Name, ast.Attribute)) and norm(n.func.value) in (r, held) and \
                         (n.func.attr.startswith("read") or n.func.attr in ("skip_value", "pop", "popleft")):
+                    return True
+                if held and isinstance(n.func, ast.Attribute) and isinstance(n.func.value, ast.Name) and n.func.value.id == "self" and method_consumes(n.func.attr):
                     return True
                 for i, a in enumerate(list(n.args) + [k.value for k in n.keywords]):
                     if isinstance(a, ast.Name) and a.id == r:
                         if helper_consumes(n, i):
                             return True
         return False
+
+    # the reader may be an attribute of the object the function is a method of (`self._reader`, or a local bound once to it):
+    # sibling methods called on self then consume from the same reader
+    held = None
+    if fi is not None and getattr(fi, "cls", None) and not isinstance(fi.node, ast.Lambda):
+        if r.startswith("self.") and r.count(".") == 1:
+            held = r
+        else:
+            binds = [a.value for a in walk_no_nested(fi.node) if isinstance(a, (ast.Assign, ast.AnnAssign)) and a.value is not None and
+                     any(isinstance(t_, ast.Name) and t_.id == r for t_ in (a.targets if isinstance(a, ast.Assign) else [a.target]))]
+            if len(binds) == 1 and isinstance(binds[0], ast.Attribute) and isinstance(binds[0].value, ast.Name) and binds[0].value.id == "self" and r not in fi.params():
+                held = norm(binds[0])
+
+    def method_consumes(name: str) -> bool:
+        if model is None or _depth > 3:
+            return False
+        callee = model.find_method(fi.cls, name)
+        if callee is None or isinstance(callee.node, ast.Lambda) or callee.is_staticmethod or "classmethod" in callee.decorators or "property" in callee.decorators:
+            return False
+        key = (callee.qualname, held)
+        if key in _helper_memo:
+            return _helper_memo[key]
+        _helper_memo[key] = False
+        ok = consumes_on_all_paths(callee.node.body, held, model, callee, _depth + 1)
+        _helper_memo[key] = ok
+        return ok
 
     def helper_consumes(call: ast.Call, argi: int) -> bool:
         if model is None or fi is None or _depth > 3:
